@@ -68,6 +68,13 @@ partial def run (st : St) : List String → St
   | "sender" :: rest =>
     run (emit st (match getSender st.s with | some b => encBytes b | none => "!")) rest
   | "rcpts" :: rest => run (emit st (encList (getRecipients st.s))) rest
+  | "fileprod" :: isA :: idx :: content :: rest =>
+    -- the content producer of one file changes between renders (a source that failed once and now works)
+    match decNat isA, decNat idx, decBytes content with
+    | some a, some i, some c =>
+      let upd (l : List FileM) : List FileM := l.mapIdx (fun j f => if j == i then { f with prod := { content := c, fails := false } } else f)
+      run { st with s := if a != 0 then { st.s with attachments := upd st.s.attachments } else { st.s with embeds := upd st.s.embeds } } rest
+    | _, _, _ => { st with bad := true }
   | "nest" :: rest =>
     run (emit st (encBool (hasMixed st.s) ++ " " ++ encBool (hasRelated st.s) ++ " " ++ encBool (hasAlt st.s))) rest
   | "signed" :: rest =>
